@@ -44,6 +44,9 @@ pub struct SchedState {
     /// before stabilisation: dissemination traffic to these validators arrives this late (they time out and
     /// skip while the others notarize: split votes that only the fallback mechanism resolves)
     pub late_diss: Option<(BTreeSet<usize>, Duration)>,
+    /// all-to-all traffic towards this validator sent in [from, until) is held until `until`
+    /// (the flag: dissemination and repair answers are held too, so the node does not learn the blocks either)
+    pub laggard: Option<(usize, Duration, Duration, bool)>,
 }
 
 #[derive(Clone, Debug)]
@@ -82,6 +85,13 @@ pub fn install_scheduler(cl: &Cluster, st: Arc<Mutex<SchedState>>) {
                         return vec![];
                     }
                 }
+            }
+        }
+        if let Some((node, from, until, isolate)) = s.laggard {
+            let held_ep = d.to.0 == Ep::All2All || (isolate && matches!(d.to.0, Ep::Diss | Ep::RepairReq));
+            if held_ep && d.to.1 == node && d.from.1 != node && d.from.1 != usize::MAX && d.t >= from && d.t < until {
+                let extra = s.rng.random_range(0..150);
+                return vec![until.saturating_sub(d.t) + Duration::from_millis(extra)];
             }
         }
         if d.to.0 == Ep::All2All && d.from.1 != d.to.1 {
@@ -310,9 +320,9 @@ pub fn byz_step(cl: &Cluster, st: &mut ByzState, rng: &mut SRng) {
 
 /// Assembles certificates from all votes seen on the wire plus the adversary's own votes and
 /// forwards each to a random subset of the correct nodes (selective forwarding).
-pub fn byz_certs(cl: &Cluster, st: &mut ByzState, rng: &mut SRng, min_slot: u64, to_all: bool) {
-    let correct = cl.correct();
-    let Some(&from) = st.mode.keys().next() else { return };
+/// Every certificate that can be assembled from the votes seen on the wire plus the adversary's own votes
+/// (slot >= min_slot): (kind, slot, block, first-half signers, second-half signers).
+pub fn constructible_certs(cl: &Cluster, st: &ByzState, min_slot: u64) -> Vec<(CK, u64, Option<H32>, Vec<usize>, Vec<usize>)> {
     let mut by_key: BTreeMap<(VK, u64, Option<H32>), BTreeSet<usize>> = BTreeMap::new();
     {
         let l = cl.log.lock().unwrap();
@@ -363,6 +373,15 @@ pub fn byz_certs(cl: &Cluster, st: &mut ByzState, rng: &mut SRng, min_slot: u64,
             _ => {}
         }
     }
+    todo
+}
+
+/// Assembles certificates from all votes seen on the wire plus the adversary's own votes and
+/// forwards each to a random subset of the correct nodes (selective forwarding).
+pub fn byz_certs(cl: &Cluster, st: &mut ByzState, rng: &mut SRng, min_slot: u64, to_all: bool) {
+    let correct = cl.correct();
+    let Some(&from) = st.mode.keys().next() else { return };
+    let todo = constructible_certs(cl, st, min_slot);
     for (ck, slot, h, a, b) in todo {
         if !st.certs_built.insert((ck, slot, h)) {
             continue;
@@ -375,4 +394,52 @@ pub fn byz_certs(cl: &Cluster, st: &mut ByzState, rng: &mut SRng, min_slot: u64,
         st.certs_sent += k as u64;
         cl.adv_send_consensus(from, &t[..k], &ConsensusMessage::Cert(c), true);
     }
+}
+
+/// Feeds a lagging node (whose all-to-all traffic is being held) in an adversarial order: first what
+/// finalizes the most recent slot, then material for earlier slots - certificates in random order, or only
+/// the votes (replayed from the wire) so that the node has to assemble the certificates itself.
+pub fn laggard_feed(cl: &Cluster, st: &ByzState, rng: &mut SRng, node: usize, votes_only: bool) -> (u64, usize) {
+    let all = constructible_certs(cl, st, 0);
+    let fin_slot = all.iter().filter(|c| matches!(c.0, CK::FastFinal | CK::Final)).map(|c| c.1).max().unwrap_or(0);
+    if fin_slot == 0 {
+        return (0, 0);
+    }
+    let mut sent = 0;
+    let mut send_cert = |c: &(CK, u64, Option<H32>, Vec<usize>, Vec<usize>)| {
+        if let Some(cert) = build_cert(&cl.ep, c.0, c.1, c.2.as_ref(), &c.3, &c.4).decode() {
+            cl.adv_send_consensus(usize::MAX, &[node], &ConsensusMessage::Cert(cert), false);
+            sent += 1;
+        }
+    };
+    // 1. the finalization of the most recent slot (a final certificate alone first, its notarization later)
+    let mut first: Vec<&(CK, u64, Option<H32>, Vec<usize>, Vec<usize>)> = all.iter().filter(|c| c.1 == fin_slot && matches!(c.0, CK::FastFinal | CK::Final)).collect();
+    first.sort_by_key(|c| if c.0 == CK::Final { 0 } else { 1 });
+    for c in first {
+        send_cert(c);
+    }
+    let lo = fin_slot.saturating_sub(14);
+    if votes_only {
+        // 2a. the votes of the earlier slots, replayed in random order
+        let mut votes: Vec<MVote> = { cl.log.lock().unwrap().votes_sent.iter().map(|x| x.2.clone()).filter(|v| v.slot >= lo && v.slot < fin_slot).collect() };
+        votes.extend(st.own_votes.iter().filter(|v| v.slot >= lo && v.slot < fin_slot).cloned());
+        votes.shuffle(rng);
+        for v in votes {
+            let bh = v.hash.as_ref().map(to_bh);
+            let sv = sign_vote(&cl.ep, v.signer, v.kind, v.slot, bh.as_ref());
+            cl.adv_send_consensus(usize::MAX, &[node], &ConsensusMessage::Vote(sv), false);
+            sent += 1;
+        }
+    } else {
+        // 2b. certificates of the earlier slots in random order, then the rest of the most recent slot
+        let mut rest: Vec<&(CK, u64, Option<H32>, Vec<usize>, Vec<usize>)> = all.iter().filter(|c| c.1 >= lo && c.1 < fin_slot).collect();
+        rest.shuffle(rng);
+        for c in rest {
+            send_cert(c);
+        }
+        for c in all.iter().filter(|c| c.1 == fin_slot && !matches!(c.0, CK::FastFinal | CK::Final)) {
+            send_cert(c);
+        }
+    }
+    (fin_slot, sent)
 }
